@@ -13,10 +13,13 @@ def sh(cmd, cwd=None, env=None, timeout=900):
     return r.returncode, (r.stdout + r.stderr)
 subprocess.run(f"git -C /repo worktree remove --force {W}", shell=True, capture_output=True)
 shutil.rmtree(W, ignore_errors=True)
-sh(f"git -C /repo worktree add -q --detach {W} HEAD")
+BASE = os.environ.get("SEED_BASE", "HEAD")     # the /repo commit the seed was written against
+sh(f"git -C /repo worktree add -q --detach {W} {BASE}")
 env = {"PYTHONPATH": f"{W}/src"}
 rc, out = sh(f"git apply {patch}", cwd=W)
 meta = {"id": sid, "property": prop, "patch_applies": rc == 0}
+if BASE != "HEAD":
+    meta["base_commit"] = BASE
 if rc != 0:
     print("PATCH DOES NOT APPLY", out[-500:]); sh(f"git -C /repo worktree remove --force {W}"); sys.exit(1)
 rc, out = sh("timeout 300 /venv/bin/python -m pytest -q -p no:cacheprovider --no-cov --timeout=60 2>&1 | tail -2", cwd=W, env=env)
